@@ -82,12 +82,16 @@ def run_shard(params, rec):
         # cheap suspects first: identifiers, then 1-argument composes, then everything bottom-up
         order = [s for s in po if s.__class__ is m2.ExprId] + \
             [s for s in po if s.__class__ is m2.ExprCompose and len(s.args) == 1] + po
-        for s in order:
+
+        def good(s):
             try:
-                good = trip(s) is s
+                return trip(s) is s
             except Exception:
-                good = False
-            if not good:
+                return False
+        for s in order:
+            if not good(s):
+                if s.__class__ is m2.ExprCompose and not good(s.args[0]):
+                    continue    # not minimal: found again bottom-up
                 guilty = s
                 break
         c = guilty.__class__
